@@ -23,6 +23,13 @@ def boundary_ho():
         for z0, z1 in ((True, False), (False, True)):
             rows = [{"0": "none", "1": 3}, {"0": 3, "1": "nan"}, {"0": "inf", "1": "-inf"}]
             out.append({"kind": "ho", "tree": ["e", ["s", 0], op, 1], "nz": False, "rows": rows, "src_nz": {"0": z0, "1": z1}})
+    # non-finite constants: the result itself is +-inf / nan although every input is present
+    for op in FM.HOPS:
+        for c in ("inf", "-inf", "nan"):
+            rows = [{"0": 3}, {"0": 0}, {"0": -2}, {"0": "none"}]
+            out.append({"kind": "ho", "tree": ["c", ["s", 0], op, c], "nz": False, "rows": rows, "src_nz": {"0": False}})
+            out.append({"kind": "ho", "tree": ["u", ["c", ["s", 0], op, c], "consumption"], "nz": True, "rows": rows, "src_nz": {"0": False}})
+            out.append({"kind": "ho", "tree": ["e", ["c", ["s", 0], op, c], "/", 0], "nz": False, "rows": rows, "src_nz": {"0": False}})
     for u in ("consumption", "production"):
         for enc in FM.MISSING:
             for nz in (False, True):
